@@ -40,7 +40,10 @@ def integrate(
     primary_stencil = integration_stencil(order, n)
     primary_stencil_width = len(primary_stencil)
 
-    integrated_signal = np.empty_like(signal)
+    # The integral of an integer valued signal is not integer valued: allocate the
+    # output with the floating point type of the signal (an integer buffer would
+    # truncate every step).
+    integrated_signal = np.empty_like(signal * 1.0)
     integrated_signal[:] = 0.0
     integrated_signal[0] = start_value
 
